@@ -1156,6 +1156,20 @@ func (e *Exec) panicInstr(st *State, x *ssa.Panic) []Exit {
 	if e.recvDepth > 0 {
 		// re-panic inside a recovering deferred closure: hard by construction
 	}
+	// `explicit_panic_refuses`: the contract declares that this function refuses an input by an
+	// explicit panic with a non-error value (panic("...")): an exit like a soft panic (soft_panic()
+	// is true, the caller's contract must allow it), not a reachability violation
+	fcx := e.fc
+	if e.curFn != nil && e.curFn != e.fn {
+		fcx = e.eng.contractFor(e.curFn)
+	}
+	if fcx != nil {
+		if _, ok := fcx.Flags["explicit_panic_refuses"]; ok {
+			pv := e.freshVal(st, "refusal", types.NewInterfaceType(nil, nil))
+			e.assume(st, fmt.Sprintf("(%s (i-tag %s))", e.softTagPred(), pv.S))
+			return e.softExit(st, pv.S)
+		}
+	}
 	e.check(st, "panic", e.srcText(x.Pos()), "false", x.Pos())
 	return nil
 }
@@ -1270,6 +1284,12 @@ func (e *Exec) atReturn(st *State, x *ssa.Return, rs []Val) {
 			e.atReturnHits = map[int]int{}
 		}
 		e.atReturnHits[i]++
+		if st.pc != "false" {
+			// reachability of this return (the clause is vacuous only if none of the returns it applies to is reachable)
+			e.siteCovers = append(e.siteCovers, &Obligation{Name: fmt.Sprintf("%s%s#cover#return:%d@%s", e.fn.String(), scenSuffix(e.sct.name), i, e.eng.posString(x.Pos())), Kind: "cover", Func: e.fn.String(),
+				Prefix: e.sc.mark(), Goal: "false", PC: st.pc, Script: e.sc, Expect: "sat", Props: e.propsDef, Site: true, Pos: e.eng.posString(x.Pos()),
+				Group: fmt.Sprintf("%s%s#at_return#%d (%s:%d)", e.fn.String(), scenSuffix(e.sct.name), i, cl.File, cl.Line)})
+		}
 		saved := e.propsDef
 		if len(cl.Props) > 0 {
 			e.propsDef = cl.Props
